@@ -55,9 +55,20 @@ class Spec(L.Spec):
         # a WINDOW_UPDATE that overflows the stream's send window (the library must reset the stream, which then IS reset), and a
         # header block on the focus stream continued on the auxiliary stream
         self.menu = self.menu[:-1] + ["rx:wuover:%d" % f, "rx:splitcont:%d" % f] + self.menu[-1:]
+        # ten bytes of DATA, and the peer's INITIAL_WINDOW_SIZE dropping to 0 afterwards: the stream's send window is negative
+        # then, which forbids nothing that carries no flow-controlled byte (end_stream, empty DATA, headers, reset)
+        self.menu = self.menu[:-1] + ["l:data10:%d" % f, "rx:iws0:0"] + self.menu[-1:]
         if not self.client:
             # the local alt-svc action of the quantifier: whatever it does (C24 judges that), it is no stream transition
             self.menu = self.menu[:-1] + ["l:altsvc:%d" % self.sids[0]] + self.menu[-1:]
+
+    def actions(self, st):
+        acts = super().actions(st)
+        if st.extra.get("iws0"):
+            # (the window arithmetic of an overflowing WINDOW_UPDATE is C03's; the model here does not follow windows, so the
+            # two actions are kept apart)
+            acts = [a for a in acts if not a.startswith("rx:wuover:") and a != "rx:iws0:0"]
+        return acts
 
     def execute(self, st, lab):
         if lab.startswith("rx:wuover:") or lab.startswith("rx:splitcont:"):
@@ -75,6 +86,23 @@ class Spec(L.Spec):
                 blk = L.sb(L.BLOCKS["trailers"])
                 info["verdict"] = {("CE", wire.PROTOCOL_ERROR)}
                 o = st.h.rx([wire.headers(sid, blk[:3], es=True, eh=False), wire.continuation(self.sids[1], blk[3:])])
+            return o, info
+        if lab.startswith("l:data10:"):
+            sid = int(lab.split(":")[2])
+            m = st.h.m
+            s = m.get(sid)
+            info = {"dir": "l", "kind": "data", "es": False, "sid": sid, "status": m.status(sid),
+                    "state": s.state if s is not None else "idle", "closed_by": s.closed_by if s is not None else None,
+                    "sent": s.sent if s is not None else "none", "recv": s.recv if s is not None else "none",
+                    "verdict": SM.send_verdict(m, "data", sid, False)}
+            if st.extra.get("iws0"):
+                info["verdict"] = {"FlowControlError", "ProtocolError", "StreamClosedError", "NoSuchStreamError"} if info["verdict"] == "ok" else info["verdict"]
+            return st.h.api("send_data", sid, b"x" * 10), info
+        if lab == "rx:iws0:0":
+            info = {"dir": "rx", "kind": "iws0", "es": False, "sid": 0}
+            o = st.h.rx([wire.settings([(wire.S_INITIAL_WINDOW_SIZE, 0)])])
+            if o.kind == "ok":
+                st.extra["iws0"] = True
             return o, info
         if lab.startswith("l:altsvc:"):
             sid = int(lab.split(":")[2])
@@ -100,6 +128,12 @@ class Spec(L.Spec):
         return super().execute(st, lab)
 
     def judge(self, st, lab, info, o, bad):
+        if lab.startswith("l:data10:"):
+            lab = "l:data:" + lab.split(":")[2]      # ten bytes instead of none: the same action as far as the state machine goes
+        if info["kind"] == "iws0":
+            if o.kind != "ok":
+                bad("settings-rejected", "%s -> %s" % (lab, o.brief()))
+            return "rx-iws0-" + o.kind
         state_desc = info["state"] if info["state"] != "closed" else "closed/%s" % info["closed_by"]
         if info["dir"] == "l":
             if info["kind"] == "push":
@@ -110,6 +144,10 @@ class Spec(L.Spec):
                 return "altsvc-" + o.kind       # acceptance is judged by C24; here only what follows matters
             v = info["verdict"]
             got = "ok" if o.kind == "ok" else o.exc_name
+            if v == "ok" and info["kind"] == "data" and st.extra.get("iws0") and got == "FlowControlError":
+                # send_data on a window that INITIAL_WINDOW_SIZE 0 may have made negative: whether zero bytes "fit" a negative
+                # window is not specified (C03 leaves it open too); end_stream() is - it must succeed
+                return "l-" + got
             if v == "ok":
                 if o.kind != "ok":
                     bad("permitted-send-refused",
